@@ -8,6 +8,7 @@ for a body X without captures, X matches at p <=> (?=X) succeeds at p <=> (?!X) 
 (?<=X) succeeds exactly at the end positions of X's matches.
 """
 import json
+import os
 import random
 import re
 
@@ -125,6 +126,7 @@ def main(ctx):
     both_reject = 0
     rec = open(ctx.record_path, "w") if getattr(ctx, "record_path", None) else None
     matched_cases = 0
+    disagreements = []
     try:
         for gname, pats, subjects in groups:
             chunks = [pats[i:i + 150] for i in range(0, len(pats), 150)]
@@ -175,11 +177,26 @@ def main(ctx):
                         oh = h(ev, 10)
                         if ctx.known_cell(cid, oh):
                             continue
-                        if rec:
-                            rec.write(json.dumps({"cid": cid, "obs": oh, "p": p, "f": f, "s": s, "eng": ev, "ref": nv, "feat": feature(p)}) + "\n")
-                        ctx.violation(("exec-differs", gname.split()[0], feature(p), f),
-                                      {"case": {"pattern": p, "flags": f, "subject": s}, "engine": ev, "reference": nv,
-                                       "monitor": "node differential on RegExp(p,f).exec(s)"})
+                        disagreements.append((gname, p, f, s, ev, nv, cid, oh))
+        # A reference that contradicts itself cannot decide a case: every disagreement is put to the reference again in fresh
+        # processes under its other execution modes (V8 runs a regexp in its bytecode interpreter first and in generated code
+        # later, and the two are known to differ on some lookaround-in-loop patterns).  Unanimous reference => violation.
+        self_inconsistent = 0
+        votes = reference_votes([(d[1], d[2], d[3]) for d in disagreements[:3000]]) if (np_ and disagreements) else {}
+        for gname, p, f, s, ev, nv, cid, oh in disagreements:
+            extra = votes.get((p, f, s))
+            if extra is not None and any(json.dumps(x) != json.dumps(nv) for x in extra):
+                self_inconsistent += 1
+                if len(ctx.cov.setdefault("reference_self_inconsistent_examples", [])) < 5:
+                    ctx.cov["reference_self_inconsistent_examples"].append({"pattern": p, "flags": f, "subject": s, "engine": ev, "reference_batch": nv, "reference_other_modes": extra})
+                continue
+            if rec:
+                rec.write(json.dumps({"cid": cid, "obs": oh, "p": p, "f": f, "s": s, "eng": ev, "ref": nv, "feat": feature(p)}) + "\n")
+            ctx.violation(("exec-differs", gname.split()[0], feature(p), f),
+                          {"case": {"pattern": p, "flags": f, "subject": s}, "engine": ev, "reference": nv, "reference_in_other_modes": extra,
+                           "monitor": "node differential on RegExp(p,f).exec(s); reference unanimous across its execution modes"})
+        ctx.cov["disagreements_put_to_the_reference_again"] = len(disagreements)
+        ctx.cov["excluded_because_reference_contradicts_itself"] = self_inconsistent
         # script-level exec on a sample
         sample = []
         for p, f in ([(x, "") for x in p2[::7]] + rp[:300]):
@@ -220,6 +237,24 @@ def main(ctx):
     ctx.sample({"pattern": rp[0][0], "flags": rp[0][1], "subject": rsubj[0]})
     ctx.assumptions += ["V8 irregexp (node v20) is a conforming ECMAScript backtracking matcher for the supported, non-unicode-mode syntax",
                         "patterns the reference rejects are skipped: acceptance of non-ECMAScript syntax is not this property"]
+
+
+def reference_votes(triples):
+    """{(p, f, s): [answer per extra reference mode]} - each case alone in its matrix, fresh node processes."""
+    from vf.common import ROOT as R
+    from vf.runner import Pool
+    out = {}
+    modes = [[], ["--regexp-interpret-all"], ["--no-regexp-tier-up"], ["--no-regexp-optimization", "--no-regexp-tier-up"]]
+    for flags in modes:
+        pool = Pool(["/usr/bin/node", "--stack-size=2000"] + flags + [str(R / "vf" / "oracle" / "node_oracle.js")], n=8, env=dict(os.environ))
+        try:
+            res = pool.map({}, [{"kind": "rxmatrix", "pats": [[p, f]], "subjects": [s]} for p, f, s in triples], batch=20, timeout=120)
+        finally:
+            pool.close()
+        for t, r in zip(triples, res):
+            row = r["rows"][0] if r and "rows" in r else "NOANSWER"
+            out.setdefault(t, []).append(row[0] if isinstance(row, list) else row)
+    return out
 
 
 def feature(p):
